@@ -362,6 +362,11 @@ func (l jsonList) patch(pathBehind, pathAhead Path, before, removeValues, addVal
 		if len(removeValues) > 0 {
 			return nil, fmt.Errorf("invalid patch. appending to -1 index. but want to remove values")
 		}
+		for _, c := range append(append([]JsonNode{}, before...), after...) {
+			if !isVoid(c) {
+				return nil, fmt.Errorf("invalid patch. appending to -1 index. but want context %v", c)
+			}
+		}
 		l = append(l, addValues...)
 		return l, nil
 	}
